@@ -35,6 +35,9 @@ class Profile:
             "determinacy gating (DESIGN 5.3): a comparison is only as strong as the model can justify",
         ]
 
+    def claim(self, kind, entry, run, v):
+        return self.claims.get(kind)
+
     def gen(self, rng, tier):
         raise NotImplementedError
 
@@ -73,4 +76,529 @@ class C01(Profile):
         return set(run.shapes) if nontrivial else set()
 
 
-PROFILES = {c.prop: c() for c in (C01,)}
+def _has(h, name):
+    """Does the history expression contain operation `name`?"""
+    if not isinstance(h, tuple):
+        return False
+    if h and h[0] == name:
+        return True
+    return any(_has(x, name) for x in h[1:] if isinstance(x, tuple))
+
+
+class C02(Profile):
+    prop = "C02"
+    claims = {k: "C02" for k in ("rows_mismatch", "keys_mismatch", "columns_mismatch")}
+    eval_new = True
+    both_orders = True
+    dn_rule = ("scenario = seeded SQL-engine op sequence over SQLite tables, every new relation compiled and run under "
+               "both physical scan orders; distinct = normalised library tree shape; non-trivial = shape contains "
+               ">= 2 Select levels or a join or a chain")
+
+    def gen(self, rng, tier):
+        big = tier == "thorough"
+        g = Gen(
+            rng, engines=["sql"],
+            weights={**UNARY_W, "chain": 2, "join": 3, "leaf": 1.5},
+            max_ops=14 if big else 9, nleaves=(2, 4), hidden_p=0.3, udf_p=0.05,
+            bounds=("exact", "loose", "zeromin", "unbounded"), special_leaf_p=0.05,
+        )
+        return {"config": swarm_config(rng), "ops": g.build()}
+
+    def dn_keys(self, run):
+        return {s for s in run.shapes if s.count("Select") >= 2 or "Join" in s or "Chain" in s}
+
+
+def multi_gen(rng, tier, *, weights, flags_p=0.5, engines=None, max_ops=None, **kw):
+    big = tier == "thorough"
+    engines = engines or (["sql", "it", "it2"] if rng.random() < 0.35 else ["sql", "it"])
+    g = Gen(rng, engines=engines, weights=weights, max_ops=max_ops or (14 if big else 9), nleaves=(1, 3),
+            flags_p=flags_p, **kw)
+    return {"config": swarm_config(rng), "ops": g.build()}
+
+
+MULTI_W = {**UNARY_W, "xfer": 4, "mat": 1.2, "chain": 1, "join": 1.2, "leaf": 1}
+
+
+class C03(Profile):
+    prop = "C03"
+    claims = {k: "C03" for k in ("rows_mismatch", "columns_mismatch", "backtrack_column_error", "engine_mismatch",
+                                 "transfer_flag_ignored", "require_flag_violated", "tree_semantics")}
+    eval_new = True
+    dn_rule = ("scenario = seeded multi-engine history (SQL / iteration sources, transfers, materializations) with "
+               "preferred-engine flags on every unary op and join; every result is processed and executed; distinct = "
+               "(operation type, flag combination, library tree shape); non-trivial = the library performed at least "
+               "one commute() while inserting the operation (i.e. backtracking actually moved something)")
+
+    def __init__(self):
+        from . import oracles
+
+        self.new_entry_hooks = (oracles.tree_semantics,)
+
+    def claim(self, kind, entry, run, v):
+        if kind in ("rows_mismatch", "tree_semantics") and entry is not None:
+            # only attributable to preferred-engine insertion if such a call is in the history
+            if not self._flagged(entry):
+                return None
+        return self.claims.get(kind)
+
+    @staticmethod
+    def _flagged(entry):
+        seen = set()
+        stack = [entry]
+        while stack:
+            e = stack.pop()
+            if id(e) in seen:
+                continue
+            seen.add(id(e))
+            if e.op.get("pe") is not None or (e.op["k"] == "join" and e.parents and
+                                              e.parents[0].mv.engine != e.parents[1].mv.engine):
+                return True
+            stack.extend(e.parents)
+        return False
+
+    def gen(self, rng, tier):
+        return multi_gen(rng, tier, weights=MULTI_W, flags_p=0.6, udf_p=0.04)
+
+    def dn_keys(self, run):
+        from .world import shape
+
+        out = set()
+        for e in run.pool:
+            if e.op.get("pe") is not None and any(k.startswith("commute:") for k in e.events):
+                out.add((e.op["k"], e.op.get("pe"), e.op.get("bt", True), e.op.get("tr", False), e.op.get("rq", False),
+                         shape(e.rel)))
+        return out
+
+
+class C04(C03):
+    prop = "C04"
+    eval_new = False
+    claims = {"commute_unsound": "C04"}
+    dn_rule = ("in-run monitor: every commute() call the library makes while backtracking in the C03 workload is captured "
+               "with its arguments and answer and judged by the tree interpreter on the real target rows plus 3 seeded "
+               "permutations/duplications; distinct = (existing type, new type, outcome full/partial/refused, "
+               "#required columns, #target columns)")
+
+    def __init__(self):
+        from . import oracles
+
+        self.new_entry_hooks = (oracles.commute_sound,)
+
+    def claim(self, kind, entry, run, v):
+        return self.claims.get(kind)
+
+    def gen(self, rng, tier):
+        return multi_gen(rng, tier, weights={**MULTI_W, "xfer": 5}, flags_p=0.75, udf_p=0.04)
+
+    def dn_keys(self, run):
+        return {k for k in run.dn if k and k[0] == "commute"}
+
+
+class C05(Profile):
+    prop = "C05"
+    claims = {k: "C05" for k in ("merge_semantics", "merge_exception", "rows_mismatch")}
+    eval_new = True
+    dn_rule = ("single-engine histories (iteration or SQL) skewed to adjacent same-kind operations, do-nothing operations, "
+               "empty windows and windows beyond the upstream window; on every entry the library tree is read by the tree "
+               "interpreter and executed by the engine; distinct = (merge site, upstream operation, new operation) of merges "
+               "that fired")
+
+    def __init__(self):
+        from . import oracles
+
+        self.new_entry_hooks = (oracles.tree_semantics,)
+
+    def claim(self, kind, entry, run, v):
+        if kind == "rows_mismatch":
+            if entry is None or not any(k.startswith(("merge:", "then:")) for k in entry.events):
+                return None
+        return self.claims.get(kind)
+
+    def gen(self, rng, tier):
+        big = tier == "thorough"
+        eng = rng.choice(["it", "sql"])
+        g = Gen(rng, engines=[eng],
+                weights={"calc": 2, "proj": 3, "sel": 3, "dedup": 1, "sort": 3, "slice": 4, "chain": 0.5, "leaf": 0.5},
+                max_ops=14 if big else 9, nleaves=(1, 2), adjacent_p=0.6, total_sort_p=0.3)
+        return {"config": swarm_config(rng), "ops": g.build()}
+
+    def dn_keys(self, run):
+        return {k for k in run.dn if k and k[0] == "merge"}
+
+
+class C06(Profile):
+    prop = "C06"
+    claims = {k: "C06" for k in ("keys_mismatch", "count_out_of_bounds", "flags_wrong", "columns_mismatch", "rows_mismatch")}
+    eval_new = True
+    dn_rule = ("histories in both engines and across engines over leaves whose declared bounds are exact / loose / zero-min / "
+               "unbounded / doomed / join-identity but truthful; every result executed; distinct = (library tree shape, "
+               "(min_rows,max_rows)) with a non-trivial bound (max_rows not None or min_rows > 0)")
+
+    def claim(self, kind, entry, run, v):
+        if kind == "rows_mismatch":
+            # attributed here only when a metadata-keyed short-cut is involved
+            from .world import walk
+
+            if entry is None:
+                return None
+            short = any(n.max_rows == 0 or n.is_join_identity for n in walk(entry.rel)) or                 any(p.rel.is_join_identity or p.rel.max_rows == 0 for p in entry.parents)
+            if not short:
+                return None
+        return self.claims.get(kind)
+
+    def gen(self, rng, tier):
+        big = tier == "thorough"
+        mode = rng.choice(["sql", "it", "multi"])
+        engines = {"sql": ["sql"], "it": ["it"], "multi": ["sql", "it"]}[mode]
+        w = {**UNARY_W, "chain": 2.5, "join": 2.5 if mode != "it" else 0, "leaf": 2, "mat": 0.5}
+        if mode == "multi":
+            w["xfer"] = 2
+        g = Gen(rng, engines=engines, weights=w, max_ops=13 if big else 9, nleaves=(2, 3),
+                bounds=("exact", "loose", "zeromin", "unbounded", "minonly"), special_leaf_p=0.25, zero_col_p=0.15)
+        return {"config": swarm_config(rng), "ops": g.build()}
+
+    def dn_keys(self, run):
+        from .world import shape
+
+        out = set()
+        for e in run.pool:
+            if e.evaluated and not e.alias and (e.rel.max_rows is not None or e.rel.min_rows > 0):
+                out.add((shape(e.rel), e.rel.min_rows, e.rel.max_rows))
+        return out
+
+
+PROC_SITES = ("hook_before", "hook_after", "db_before", "db_mid", "db_after", "leaf_iter", "stream_row")
+
+
+class C07(Profile):
+    prop = "C07"
+    level = "fault_enumeration"
+    claims = {k: "C07" for k in ("rows_mismatch", "mutated", "transfer_payload_on_input", "process_changed_signature",
+                                 "process_incomplete", "hook_bad_arg", "hook_on_trivial", "hook_recall", "bad_payload",
+                                 "no_recovery", "exec_exception")}
+    fault_sites = PROC_SITES
+    enumerate_faults = True
+    track_payloads = True
+    dn_rule = ("multi-engine histories with transfers, materializations (also directly after transfers) and chains with "
+               "statically empty branches; process() issued repeatedly on shared subtrees; in the faulting batch a fault is "
+               "placed at crossings of hook / DB / leaf sites (every crossing, up to 64 per scenario, in the thorough tier), "
+               "followed by one fault-free retry; distinct = (library tree shape of a processed tree with >= 1 transfer, fault "
+               "site, crossing number) - fault-free runs count with site 'none'")
+
+    def claim(self, kind, entry, run, v):
+        if kind == "exec_exception" and v["detail"].get("phase") != "process":
+            return None
+        if kind == "rows_mismatch" and (entry is None or entry.op["k"] != "process"):
+            return None
+        return self.claims.get(kind)
+
+    def gen(self, rng, tier):
+        w = {**UNARY_W, "xfer": 5, "mat": 3, "chain": 1.5, "join": 0.6, "leaf": 1.5, "process": 5, "run": 1}
+        return multi_gen(rng, tier, weights=w, flags_p=0.15, special_leaf_p=0.12,
+                         bounds=("exact", "loose", "zeromin", "unbounded"))
+
+    def dn_keys(self, run):
+        from .world import shape
+
+        out = set()
+        faults = [(i, tuple(f)) for i, o in enumerate(run.sc["ops"]) for f in o.get("faults", [])] or [(None, ("none", 0))]
+        for e in run.pool:
+            if e.op["k"] == "process" and not e.alias and "T>" in shape(e.rel):
+                for _, f in faults:
+                    out.add((shape(e.rel), f[0], f[1]))
+        return out
+
+
+class C08(Profile):
+    prop = "C08"
+    claims = {k: "C08" for k in ("exec_exception", "unexpected_exception")}
+    eval_new = True
+    dn_rule = ("histories in the SQL engine, the iteration engine and across engines with maximal shape diversity; every "
+               "accepted relation is compiled and run (through process() when needed); distinct = (phase reached, library "
+               "tree shape) with >= 3 operation nodes")
+
+    def gen(self, rng, tier):
+        big = tier == "thorough"
+        mode = rng.choice(["sql", "sql", "it", "multi"])
+        if mode == "multi":
+            return multi_gen(rng, tier, weights={**MULTI_W, "join": 2, "chain": 2}, flags_p=0.3)
+        w = {**UNARY_W, "chain": 3, "join": 3, "leaf": 1.5, "mat": 0.3}
+        g = Gen(rng, engines=[mode], weights=w, max_ops=14 if big else 9, nleaves=(2, 4), hidden_p=0.15,
+                special_leaf_p=0.05)
+        return {"config": swarm_config(rng), "ops": g.build()}
+
+    def dn_keys(self, run):
+        return {s for s in run.shapes if sum(s.count(x) for x in ("Calculation", "Projection", "Selection", "Deduplication",
+                                                               "Sort", "Slice", "Join", "Chain")) >= 3}
+
+
+class C09(Profile):
+    prop = "C09"
+    claims = {k: "C09" for k in ("mutated", "unhashable", "rebuild_not_equal", "rebuild_hash_differs",
+                                 "compile_not_repeatable", "execute_not_repeatable")}
+    track_fingerprints = True
+    fault_sites = ("leaf_iter", "hook_before", "hook_after", "db_before", "db_after")
+    fault_fraction = 0.3
+    dn_rule = ("long mixed histories of factory calls, executions, cursors, process(), diagnostics, rejected and faulted "
+               "calls over one shared pool; after every step every earlier relation is re-fingerprinted; distinct = op-kind "
+               "sequences of length >= 6 containing a payload attachment, a rejected call or a fault before the last check")
+
+    def gen(self, rng, tier):
+        big = tier == "thorough"
+        w = {**UNARY_W, "xfer": 2, "mat": 1.5, "chain": 1.5, "join": 1, "leaf": 1, "process": 2, "run": 3, "rebuild": 3,
+             "twice": 2, "ill": 2, "diag": 1, "cursor_open": 0.7, "pull": 1.5, "abandon": 0.3, "attach": 0.5}
+        return multi_gen(rng, tier, weights=w, flags_p=0.3, max_ops=30 if big else 14,
+                         engines=rng.choice([["sql"], ["it"], ["sql", "it"], ["sql", "it", "it2"]]), named_mat=True)
+
+    def dn_keys(self, run):
+        kinds = [o["k"] for o in run.sc["ops"]]
+        if len(kinds) >= 6 and (run.probes.get("mat_payload_attached") or run.probes.get("ill_rejected")
+                                or run.w.fault.total_fired or run.stats.get("alias:allowed-error")):
+            return {tuple(kinds)}
+        return set()
+
+
+class C10(Profile):
+    prop = "C10"
+    level = "fault_enumeration"
+    claims = {k: "C10" for k in ("payload_overwritten", "attach_not_rejected", "attach_wrong_exception", "attach_rejected",
+                                 "attach_lost", "reevaluated", "hook_recall", "rows_mismatch")}
+    track_payloads = True
+    fault_sites = PROC_SITES
+    enumerate_faults = True
+    dn_rule = ("histories of attach_payload / iteration execute / process over trees sharing materialization nodes, with crash "
+               "points at hook / DB / leaf crossings and one retry; distinct = (op-kind sequence, number of materializations, "
+               "fault placement) with >= 1 shared materialization node")
+
+    def claim(self, kind, entry, run, v):
+        if kind == "rows_mismatch":
+            from lsst.daf.relation import Materialization
+            from .world import walk
+
+            if entry is None or not any(isinstance(n, Materialization) and n.payload is not None for n in walk(entry.rel)):
+                return None
+        return self.claims.get(kind)
+
+    def gen(self, rng, tier):
+        w = {"calc": 2, "proj": 2, "sel": 2, "dedup": 1, "sort": 1.5, "slice": 1.5, "xfer": 3, "mat": 5, "chain": 2,
+             "leaf": 1, "process": 5, "run": 4, "attach": 4, "iterate": 2, "cursor_open": 0.5, "pull": 1}
+        return multi_gen(rng, tier, weights=w, flags_p=0.1, engines=rng.choice([["it"], ["sql", "it"], ["sql", "it", "it2"]]),
+                         max_ops=18 if tier == "thorough" else 12)
+
+    def dn_keys(self, run):
+        nm = len(run.mat_entries)
+        if not nm:
+            return set()
+        faults = tuple((i, tuple(f)) for i, o in enumerate(run.sc["ops"]) for f in o.get("faults", []))
+        return {(tuple(o["k"] for o in run.sc["ops"]), nm, faults)}
+
+
+class C11(Profile):
+    prop = "C11"
+    claims = {k: "C11" for k in ("rows_mismatch", "order_loss_missing", "buried_sort")}
+    eval_new = True
+    both_orders = True
+    dn_rule = ("SQL histories dense in (total and non-total) sorts and slices in every position relative to projection, "
+               "deduplication, selection, calculation, with join / chain / materialise applied on sorted operands; run under both "
+               "physical scan orders; distinct = op-kind pattern of a history containing a total sort whose result was compared "
+               "as an ordered list")
+
+    def __init__(self):
+        from . import oracles
+
+        self.new_entry_hooks = (oracles.no_buried_sort,)
+
+    def claim(self, kind, entry, run, v):
+        if kind == "rows_mismatch" and (entry is None or not _has(entry.mv.hist, "sort")):
+            return None
+        return self.claims.get(kind)
+
+    def gen(self, rng, tier):
+        big = tier == "thorough"
+        g = Gen(rng, engines=["sql"],
+                weights={"calc": 1.5, "proj": 3, "sel": 1.5, "dedup": 2.5, "sort": 5, "slice": 5, "chain": 1.5, "join": 1.5,
+                         "mat": 1.2, "leaf": 1},
+                max_ops=13 if big else 9, nleaves=(1, 3), total_sort_p=0.7, allow_pending_binary=0.5, adjacent_p=0.25)
+        return {"config": swarm_config(rng), "ops": g.build()}
+
+    def dn_keys(self, run):
+        out = set()
+        for e in run.pool:
+            if e.evaluated and not e.alias and e.mv.strength() == "list" and _has(e.mv.hist, "sort"):
+                from .model import hist_shape
+
+                out.add(hist_shape(e.mv.hist))
+        return out
+
+
+class C14(Profile):
+    prop = "C14"
+    claims = {k: "C14" for k in ("malformed_tree", "noop_not_identity")}
+    dn_rule = ("histories over two or three engines with every preferred-engine option and an engine-restricted column "
+               "function; every tree returned by a factory call or by process() is walked (target/lhs/rhs/skip_to) against the "
+               "node-local invariants; distinct = library tree shapes spanning >= 2 engines")
+
+    def __init__(self):
+        from . import oracles
+
+        self.new_entry_hooks = (oracles.wellformed,)
+
+    def gen(self, rng, tier):
+        w = {**MULTI_W, "process": 1.5, "join": 2}
+        return multi_gen(rng, tier, weights=w, flags_p=0.6, udf_p=0.15, itonly_p=0.5,
+                         engines=["sql", "it", "it2"] if rng.random() < 0.6 else ["sql", "it"])
+
+    def dn_keys(self, run):
+        return {k for k in run.dn if k and k[0] == "wf"}
+
+
+class C15(Profile):
+    prop = "C15"
+    claims = {k: "C15" for k in ("locked_rewritten", "redundant_materialization", "rows_mismatch", "engine_mismatch")}
+    eval_new = True
+    dn_rule = ("chains of transfers among up to three engines interleaved with operations and materializations (processed at "
+               "random points so that payloads are cached on locked nodes), then factory calls with every preferred-engine "
+               "option on top; distinct = (library tree shape, call kind, flags) where an input contains a locked non-leaf node")
+
+    def __init__(self):
+        from . import oracles
+
+        self.new_entry_hooks = (oracles.locked_identity,)
+
+    def claim(self, kind, entry, run, v):
+        if kind in ("rows_mismatch", "engine_mismatch"):
+            # round trips / transfer simplification only
+            if entry is None or entry.op["k"] not in ("xfer", "mat"):
+                return None
+        return self.claims.get(kind)
+
+    def gen(self, rng, tier):
+        w = {**UNARY_W, "xfer": 7, "mat": 4, "chain": 1, "join": 1, "leaf": 1, "process": 2}
+        return multi_gen(rng, tier, weights=w, flags_p=0.55,
+                         engines=["sql", "it", "it2"] if rng.random() < 0.6 else ["sql", "it"])
+
+    def dn_keys(self, run):
+        return {k for k in run.dn if k and k[0] == "locked"}
+
+
+class C16(Profile):
+    prop = "C16"
+    claims = {k: "C16" for k in ("doomed_nonempty", "diag_inexact", "doomed_no_message", "diag_exception")}
+    fault_sites = ("db_before", "db_after", "leaf_iter")
+    fault_fraction = 0.2
+    recover_kinds = ()
+    dn_rule = ("trees of both engines with doomed / identity leaves, trivially false predicates, zero-limit slices, chains with an "
+               "empty branch; Diagnostics.run without executor, with a truthful executor (tree interpreter) and with a real one "
+               "(process + run, may fault); distinct = (executor mode, library tree shape) for trees containing >= 1 operation "
+               "that can remove all rows")
+
+    def gen(self, rng, tier):
+        big = tier == "thorough"
+        mode = rng.choice(["sql", "it", "multi"])
+        engines = {"sql": ["sql"], "it": ["it"], "multi": ["sql", "it"]}[mode]
+        w = {"calc": 1, "proj": 1.5, "sel": 4, "dedup": 1, "sort": 1, "slice": 3, "chain": 3, "join": 3 if mode != "it" else 0,
+             "leaf": 2, "diag": 6}
+        if mode == "multi":
+            w["xfer"] = 2
+            w["mat"] = 0.7
+        g = Gen(rng, engines=engines, weights=w, max_ops=14 if big else 10, nleaves=(2, 3), special_leaf_p=0.3,
+                bounds=("exact", "loose", "zeromin", "unbounded"))
+        return {"config": swarm_config(rng), "ops": g.build()}
+
+    def dn_keys(self, run):
+        from .world import shape
+
+        out = set()
+        for o in run.sc["ops"]:
+            if o["k"] == "diag" and run.pool:
+                e = run.pool[o["t"] % len(run.pool)]
+                s = shape(e.rel)
+                if any(x in s for x in ("Selection", "Slice", "Join")):
+                    out.add((o.get("ex"), s))
+        return out
+
+
+class C17(Profile):
+    prop = "C17"
+    claims = {k: "C17" for k in ("factory_not_conformed", "conform_not_idempotent", "select_incoherent", "conform_exception",
+                                 "rows_mismatch")}
+    both_orders = True
+    dn_rule = ("SQL trees built through the API, raw trees assembled bottom-up with the dataclass constructors and conformed, "
+               "and trees returned by process(); distinct = library tree shapes (Select nesting included) that were checked")
+
+    def __init__(self):
+        from . import oracles
+
+        self.new_entry_hooks = (oracles.conformed,)
+
+    def claim(self, kind, entry, run, v):
+        if kind == "rows_mismatch" and (entry is None or entry.op["k"] != "rawtree"):
+            return None
+        return self.claims.get(kind)
+
+    def gen(self, rng, tier):
+        big = tier == "thorough"
+        if rng.random() < 0.25:
+            w = {**MULTI_W, "process": 3, "rawtree": 2}
+            return multi_gen(rng, tier, weights=w, flags_p=0.3, engines=["sql", "it"])
+        g = Gen(rng, engines=["sql"], weights={**UNARY_W, "chain": 2, "join": 2, "leaf": 1, "rawtree": 4},
+                max_ops=14 if big else 10, nleaves=(1, 3), adjacent_p=0.2)
+        return {"config": swarm_config(rng), "ops": g.build()}
+
+    def dn_keys(self, run):
+        return {k for k in run.dn if k and k[0] == "selects"}
+
+
+class C18(Profile):
+    prop = "C18"
+    level = "fault_enumeration"
+    claims = {k: "C18" for k in ("eager_leaf_iteration", "multiple_starts", "iteration_not_repeatable", "rows_mismatch",
+                                 "no_recovery")}
+    fault_sites = ("leaf_iter",)
+    enumerate_faults = True
+    recover_kinds = ("iterate",)
+    dn_rule = ("iteration-engine trees over instrumented lazy leaves (a leaf may occur several times): lazy-only trees and trees "
+               "mixing in sort / deduplication / materialization; results iterated 1-3 times, partially abandoned, under upstream "
+               "faults at every row boundary; distinct = (lazy leaf occurrences, eager leaf occurrences, #iterations, abandon "
+               "point) with >= 2 iterations")
+
+    def claim(self, kind, entry, run, v):
+        if kind == "rows_mismatch" and run.sc["ops"][v["op_index"]]["k"] != "iterate":
+            return None
+        return self.claims.get(kind)
+
+    def gen(self, rng, tier):
+        big = tier == "thorough"
+        lazy_only = rng.random() < 0.5
+        w = {"calc": 3, "proj": 3, "sel": 3, "slice": 3, "chain": 3, "leaf": 1, "iterate": 5, "cursor_open": 1, "pull": 2,
+             "abandon": 0.5}
+        if not lazy_only:
+            w.update({"sort": 2, "dedup": 2, "mat": 2, "xfer": 0.7})
+        g = Gen(rng, engines=["it", "it2"] if rng.random() < 0.3 else ["it"], weights=w, max_ops=14 if big else 10,
+                nleaves=(1, 3), leaf_payloads=("simrows", "simrows", "simrows", "seq", "map"), udf_p=0.05)
+        return {"config": swarm_config(rng), "ops": g.build()}
+
+    def dn_keys(self, run):
+        return {k for k in run.dn if k and k[0] == "iter" and k[3] >= 2}
+
+
+class C20(Profile):
+    prop = "C20"
+    claims = {k: "C20" for k in ("missing_rejection", "wrong_exception_class", "mutated")}
+    track_fingerprints = True
+    dn_rule = ("for calls the generator believes acceptable, single ill-typing edits (missing column in predicate / sort term / "
+               "projection / calculation / join predicate, duplicate calculated tag, chain operands with different columns or "
+               "engines, engine-unsupported expression, negative / reversed / stepped / non-slice index) issued at any depth of "
+               "multi-engine histories with every flag combination; the model confirms ill-formedness before the call; distinct = "
+               "(edit kind, operation, route root / backtracked / transferred / sql-conformed)")
+
+    def gen(self, rng, tier):
+        w = {**UNARY_W, "xfer": 2.5, "mat": 0.8, "chain": 1, "join": 1, "leaf": 1, "ill": 9, "process": 0.5}
+        engines = rng.choice([["sql"], ["it"], ["sql", "it"], ["sql", "it", "it2"]])
+        return multi_gen(rng, tier, weights=w, flags_p=0.3, engines=engines, udf_p=0.05)
+
+    def dn_keys(self, run):
+        return set(run.ill_routes)
+
+
+PROFILES = {c.prop: c() for c in (C01, C02, C03, C04, C05, C06, C07, C08, C09, C10, C11, C14, C15, C16, C17, C18, C20)}
